@@ -1,4 +1,6 @@
 """Statement / terminator transfer functions, intra-procedural fixpoint and calls."""
+import os
+
 from . import domain as D
 from .domain import Lin
 from .interp import MAX_DEPTH, MAX_VISITS, ORDERING, Interp, Unsupported
@@ -7,6 +9,7 @@ from .state import State
 from .values import BOT, Arr, Bot, BoxU, Delta, Enum, Fn, FnPtr, Iter, Opaque, Ref, Scalar, Seq, Struct, Val
 
 CMP_OPS = ("Eq", "Ne", "Lt", "Le", "Gt", "Ge")
+BIG_THRESHOLDS = sorted(set([0, -1, 1] + [(1 << b) - 1 for b in (7, 8, 15, 16, 31, 32, 63, 64, 127, 128)] + [-(1 << b) for b in (7, 15, 31, 63, 127)]))
 FLIP = {"Lt": "Gt", "Le": "Ge", "Gt": "Lt", "Ge": "Le", "Eq": "Eq", "Ne": "Ne"}
 
 
@@ -137,6 +140,7 @@ class Exec(Interp):
             if not T.dead:
                 vs[name] = ()
                 when[name] = Delta({}, facts)
+                self.stamp_delta(S, when[name])
         return Enum("core::cmp::Ordering", vs, when)
 
     def cast(self, S, frame, rv, site):
@@ -320,12 +324,14 @@ class Exec(Interp):
                 for w in ws[1:]:
                     common &= set(w.iv)
                 for x in common:
+                    if any(w.gen is not None and S.gen.get(x, 0) != w.gen.get(x, 0) for w in ws):
+                        continue
                     j = ws[0].iv[x]
                     for w in ws[1:]:
                         j = D.join(j, w.iv[x])
                     S.refine(x, j)
                 for f in ws[0].facts:
-                    if all(f in w.facts for w in ws[1:]):
+                    if all(f in w.facts for w in ws[1:]) and not any(w.gen is not None and S.gen.get(x, 0) != w.gen.get(x, 0) for w in ws for x in f.t):
                         S.add_fact(f)
 
     # ------------------------------------------------------------------ statements
@@ -464,6 +470,115 @@ class Exec(Interp):
             if v is not None:
                 print("   _%d%s = %s" % (n, (" " + l["name"]) if "name" in l else "", self.show(S, v)))
 
+    def loop_body(self, inst, h):
+        """Blocks of the natural loop(s) headed by h: reachable from h and reaching h."""
+        cache = inst.setdefault("_loops", {})
+        if h in cache:
+            return cache[h]
+        blocks = inst["body"]["blocks"]
+        fwd, st = set(), [h]
+        while st:
+            x = st.pop()
+            if x in fwd:
+                continue
+            fwd.add(x)
+            st.extend(self.succs(blocks[x]))
+        preds = self.preds_of(inst)
+        back, st = set(), [h]
+        while st:
+            x = st.pop()
+            if x in back:
+                continue
+            back.add(x)
+            st.extend(p for p in preds.get(x, []) if p in fwd)
+        cache[h] = fwd & back
+        return cache[h]
+
+    @staticmethod
+    def sym_origin(key):
+        """(frame, block) where a symbol is defined, from its deterministic key."""
+        def frame_like(x):
+            return isinstance(x, tuple) and x and x[0] in ("R", "F")
+        stack = [key]
+        while stack:
+            k = stack.pop(0)
+            if not isinstance(k, tuple):
+                continue
+            for i, e in enumerate(k):
+                if frame_like(e) and i + 1 < len(k) and isinstance(k[i + 1], int) and not isinstance(k[i + 1], bool):
+                    return e, k[i + 1]
+            stack.extend(e for e in k if isinstance(e, tuple) and not frame_like(e))
+            stack.extend(e for e in k if frame_like(e) and False)
+        return None
+
+    def defined_in_loop(self, s, frame, body):
+        o = self.sym_origin(self.st.keys[s])
+        if o is None:
+            return False
+        fr, bi = o
+        if fr == frame:
+            return bi in body
+        while isinstance(fr, tuple) and len(fr) > 2 and fr[0] == "F":
+            if fr[1] == frame:
+                return fr[2] in body
+            fr = fr[1]
+        return False
+
+    def scrub_loop_deltas(self, S, inst, frame, h):
+        """At a loop head: conditional deltas stored in values must not talk about symbols that the
+        loop body is going to redefine (they would describe the previous iteration)."""
+        body = self.loop_body(inst, h)
+        memo = {}
+
+        def bad(s):
+            r = memo.get(s)
+            if r is None:
+                r = memo[s] = self.defined_in_loop(s, frame, body)
+            return r
+
+        def clean(d):
+            if not d.iv and not d.facts:
+                return d
+            iv = {s: v for s, v in d.iv.items() if not bad(s)}
+            facts = tuple(f for f in d.facts if not any(bad(x) for x in f.t))
+            if len(iv) == len(d.iv) and len(facts) == len(d.facts):
+                return d
+            return Delta(iv, facts, d.gen)
+
+        def walk(v, depth=0):
+            if isinstance(v, Enum):
+                nw = {k: clean(d) for k, d in v.when.items()} if v.when else v.when
+                nv = {k: tuple(walk(f, depth + 1) for f in fs) for k, fs in v.variants.items()} if depth < 6 else v.variants
+                if nw is v.when or all(nw[k] is v.when[k] for k in nw):
+                    if all(all(a is b for a, b in zip(nv[k], v.variants[k])) for k in nv):
+                        return v
+                return Enum(v.path, nv, nw)
+            if isinstance(v, Struct) and depth < 6:
+                fs = [walk(f, depth + 1) for f in v.fields]
+                if all(a is b for a, b in zip(fs, v.fields)):
+                    return v
+                return Struct(v.path, fs)
+            if isinstance(v, Arr) and depth < 6:
+                es = [walk(e, depth + 1) for e in v.elems]
+                if all(a is b for a, b in zip(es, v.elems)):
+                    return v
+                return Arr(es)
+            if isinstance(v, Seq) and v.elem is not None and depth < 6:
+                e = walk(v.elem, depth + 1)
+                if e is v.elem:
+                    return v
+                return Seq(v.kind, v.len, e, v.efacts, v.data, v.prov)
+            return v
+
+        for c, v in list(S.cells.items()):
+            nv = walk(v)
+            if nv is not v:
+                S.cells[c] = nv
+        for s, w in list(S.when.items()):
+            nw = {k: clean(d) for k, d in w.items()}
+            if any(nw[k] is not w[k] for k in w):
+                S.when[s] = nw
+
     def preds_of(self, inst):
         pm = inst.get("_preds")
         if pm is None:
@@ -492,7 +607,11 @@ class Exec(Interp):
         work = [0]
         rets = {}
         rpo = self.rpo_of(inst)
-        while work:
+        widened = set()
+        narrowing = False
+        nvis = {}
+        while True:
+          while work:
             work.sort(key=lambda x: rpo.get(x, 1 << 30))
             bi = work.pop(0)
             # input = join of incoming edge states
@@ -504,10 +623,35 @@ class Exec(Interp):
             J = sts[0]
             for X in sts[1:]:
                 J = join(J, X, (frame, bi), first=(nv <= 1))
+            def scrub(J):
+                if bi in heads and len(sts) > 1:
+                    if any(J is x for x in sts) or J is inputs.get(bi):
+                        J = J.copy()
+                    self.scrub_loop_deltas(J, inst, frame, bi)
+                return J
+
+            J = scrub(J)
             old = inputs.get(bi)
             if old is not None:
-                if bi in heads and nv >= 3:
-                    J = join(old, J, (frame, bi), widen=(old, thresholds), first=False)
+                if narrowing:
+                    if bi in heads:
+                        nvis[bi] = nvis.get(bi, 0) + 1
+                        if nvis[bi] > 2:
+                            continue
+                        # narrow intervals only: both `old` and the recomputed join over-approximate
+                        # the states at this head, so their interval-wise meet does too
+                        Jn = old.copy()
+                        for s_, iv_ in old.iv.items():
+                            nw = J.iv.get(s_)
+                            if nw is not None and nw != iv_:
+                                m_ = D.meet(iv_, nw)
+                                if m_:
+                                    Jn.iv[s_] = m_
+                        J = Jn
+                elif bi in heads and nv >= 3:
+                    th = thresholds if (nv < 7 or os.environ.get('NO_BIG')) else None
+                    J = scrub(join(old, J, (frame, bi), widen=(old, th), first=False))
+                    widened.add(bi)
                 if self.same_state(J, old):
                     continue
             inputs[bi] = J
@@ -550,6 +694,11 @@ class Exec(Interp):
                         work.append(t2)
             if "return" not in seen_t and bi in rets:
                 del rets[bi]
+          if narrowing or not widened or os.environ.get('NO_NARROW'):
+            break
+          # decreasing iterations from the post-fixpoint: recompute widened loop heads without widening
+          narrowing = True
+          work = sorted(widened)
         ret_state = None
         for bi in sorted(rets):
             U = rets[bi]
@@ -916,7 +1065,7 @@ class Exec(Interp):
         for c in [c for c in R.cells if isinstance(c, tuple) and c and c[0] == frame]:
             del R.cells[c]
         # transplant R into S (S is the caller's mutable state object)
-        for name in ("cells", "iv", "lin", "cmpd", "ovf", "notd", "absd", "discr", "when", "facts", "dead", "log"):
+        for name in ("cells", "iv", "lin", "cmpd", "ovf", "notd", "absd", "discr", "when", "facts", "dead", "log", "gen"):
             setattr(S, name, getattr(R, name))
         # temporarily root the return value for gc
         S.cells[("ret", frame)] = ret
@@ -933,7 +1082,39 @@ class Exec(Interp):
             self.havoc_mut_args(S, args, site)
             return self.top_of_dest(S, inst, t, site)
         ctx = CallCtx(self, S, frame, inst, bi, t, r, args, site)
-        return m(ctx)
+        ret = m(ctx)
+        if ret is not None:
+            self.stamp(S, ret)
+        return ret
+
+    def stamp(self, S, v, depth=0):
+        """Give generation stamps to conditional deltas created by models."""
+        if isinstance(v, Enum):
+            for d in v.when.values():
+                self.stamp_delta(S, d)
+            if depth < 3:
+                for fs in v.variants.values():
+                    for f in fs:
+                        self.stamp(S, f, depth + 1)
+        elif isinstance(v, Struct) and depth < 3:
+            for f in v.fields:
+                self.stamp(S, f, depth + 1)
+        elif isinstance(v, Scalar):
+            w = S.when.get(v.sym)
+            if w:
+                for d in w.values():
+                    self.stamp_delta(S, d)
+
+    @staticmethod
+    def stamp_delta(S, d):
+        if d.gen is None:
+            g = {}
+            for s in d.iv:
+                g[s] = S.gen.get(s, 0)
+            for f in d.facts:
+                for s in f.t:
+                    g[s] = S.gen.get(s, 0)
+            d.gen = g
 
     # ------------------------------------------------------------------ roots
     def analyse_root(self, inst, make_args=None):
